@@ -203,7 +203,8 @@ class NegInstruction(MichelsonInstruction, prim='NEG'):
             },
         )
         if issubclass(res_type, IntType):
-            res = IntType.from_value(-int(a))  # type: ignore
+            # NOTE: Fr is a subclass of IntType, its from_value reduces modulo the field order
+            res = res_type.from_value(-int(a))  # type: ignore
         else:
             res = res_type.from_point(bls12_381.neg(a.to_point()))  # type: ignore
         stack.push(res)
